@@ -464,6 +464,112 @@ def probe_d40():
             return True, f"copy.deepcopy(owner) raised {type(e).__name__}: {str(e)[:90]}"
 
 
+class _OwnerBase:
+    """a model that owns its machine (what `MachineMixin` does); module level so that pickle finds the classes"""
+    def __init__(self, bind):
+        self.trail = []
+        self._init_state()
+        self.sm = _OwnedMachine(self, state_field="state")
+        if bind:
+            import warnings
+            with warnings.catch_warnings():
+                warnings.simplefilter("ignore")
+                self.sm.bind_events_to(self)
+
+    def _init_state(self):
+        self.state = None
+
+
+class _OwnerClassDefault(_OwnerBase):
+    state = None          # class-level default: the half-built copy answers None instead of raising
+
+    def _init_state(self):
+        pass
+
+
+class _OwnerSlotsLike(_OwnerBase):
+    def _init_state(self):
+        self.__dict__["state"] = None
+
+
+def _owned_machine():
+    import warnings
+    from statemachine import State, StateMachine
+    with warnings.catch_warnings():
+        warnings.simplefilter("ignore")
+
+        class _OwnedMachine(StateMachine):
+            draft = State(initial=True)
+            paid = State()
+            done = State(final=True)
+            pay = draft.to(paid)
+            ship = paid.to(done)
+
+            def on_enter_state(self, state):
+                self.model.trail.append(f"enter {state.id}")
+    return _OwnedMachine
+
+
+_OwnedMachine = None
+
+
+class _Holder:
+    """some other object that refers to an owner model (a copy may also reach the owner through it)"""
+    def __init__(self, owner):
+        self.owner = owner
+
+
+def probe_model_rooted_copies(seed, n):
+    """Directed family: a model that owns its machine is copied (deepcopy or a pickle round trip), starting at the model
+    or at an object that holds it, after a random prefix of events. The copy must be in the original's state, must not
+    have run anything during the copy (no second `enter` of the initial state: D30), and must go on like the
+    original."""
+    import copy
+    import pickle
+    import random
+    import sys
+    global _OwnedMachine
+    if _OwnedMachine is None:
+        _OwnedMachine = _owned_machine()
+        _OwnedMachine.__qualname__ = "_OwnedMachine"
+        mod = sys.modules[__name__]
+        setattr(mod, "_OwnedMachine", _OwnedMachine)
+        _OwnedMachine.__module__ = __name__
+    fails, cases = [], 0
+    for i in range(n):
+        rng = random.Random(f"{seed}:rooted:{i}")
+        cls = rng.choice([_OwnerBase, _OwnerClassDefault, _OwnerSlotsLike])
+        bind = rng.random() < 0.5
+        prefix = rng.choice([[], ["pay"], ["pay", "ship"]])
+        how = rng.choice(["deepcopy", "pickle"])
+        via_holder = rng.random() < 0.4
+        what = f"{cls.__name__} bind={bind} prefix={prefix} {how} via={'holder' if via_holder else 'owner'}"
+        cases += 1
+        try:
+            o = cls(bind)
+            for e in prefix:
+                o.sm.send(e)
+            root = _Holder(o) if via_holder else o
+            c = copy.deepcopy(root) if how == "deepcopy" else pickle.loads(pickle.dumps(root))
+            c = c.owner if via_holder else c
+            if c.state != o.state or c.sm.current_state.id != o.sm.current_state.id or c.trail != o.trail:
+                fails.append(f"{what}: original state={o.state} trail={o.trail}; copy state={c.state} "
+                             f"machine={c.sm.current_state.id} trail={c.trail}")
+                continue
+            if c.sm.model is not c or c.sm is o.sm:
+                fails.append(f"{what}: the copy's machine does not belong to the copy")
+                continue
+            nxt = {"draft": "pay", "paid": "ship"}.get(o.state)
+            if nxt:
+                o.sm.send(nxt)
+                c.sm.send(nxt)
+                if c.state != o.state or c.trail != o.trail:
+                    fails.append(f"{what}: after {nxt}: original {o.state} {o.trail}; copy {c.state} {c.trail}")
+        except Exception as e:
+            fails.append(f"{what}: {type(e).__name__}: {e}")
+    return cases, fails
+
+
 def run_findings(ctx):
     known = {k.get("exclusion"): k for k in known_findings("C17") if k.get("status") == "known"}
     for key, probe, title in (("callback-attribute-assigned-after-construction", probe_d39,
@@ -481,6 +587,10 @@ def run_findings(ctx):
 def run(ctx):
     lean_obligations(ctx)
     run_findings(ctx)
+    ncases, rf = probe_model_rooted_copies(ctx.seed, 150 if ctx.tier == "quick" else 2000)
+    ctx.coverage["model_rooted_copies"] = ncases
+    if rf:
+        ctx.violation(ctx.write_replay("model_rooted_copy.txt", "\n".join(rf[:10]) + "\n"), rf[0][:160])
     clone_guard_expressions(ctx, 150 if ctx.tier == "quick" else 3000)
     ctx.coverage["rule"] = RULE
     ctx.assumptions += [
